@@ -1003,3 +1003,25 @@ MORE_MODELS.update({
     r"^core::slice::<impl \[.*\]>::split_at$": m_slice_split_at,
     r"^core::slice::<impl \[.*\]>::split_first$": m_slice_split_first,
 })
+
+
+def m_iter_find(it, args, callee):
+    """`iter.find(pred)`: the FIRST element satisfying the predicate"""
+    src = it.deref(args[0], it.cur_env) if not isinstance(args[0], (IterVal, VecVal)) else args[0]
+    items = src.items[src.pos:] if isinstance(src, IterVal) else src.items
+    out = []
+    for pc, env, acc in it.run_closure_seq(args[1], list(items)):
+        if any(k == "panic" for k, _ in acc):
+            out.append((pc, None, "panic", [v for k, v in acc if k == "panic"][0]))
+            continue
+        misses = []
+        for item, (_, r) in zip(items, acc):
+            b = r.expr if isinstance(r, SV) else it.lazy_scalar(r, "bool").expr
+            out.append((pc + misses + [b], it._mk_enum("Option", "Some", [item]), "return", None, {"env": env}))
+            misses = misses + ["(not %s)" % b]
+        out.append((pc + misses, it._mk_enum("Option", "None", []), "return", None, {"env": env}))
+    return out
+
+
+CLOSURE_MODELS[r"^<std::slice::Iter<'_, .*> as Iterator>::find::<"] = m_iter_find
+MORE_MODELS.update(CLOSURE_MODELS)
